@@ -23,8 +23,8 @@ def build():
             raise Exception("T-FMT: format string outside the supported shape")
         return "let signing_input = " + e
     fmt = ("T-FMT", r"let signing_input = format!\((?P<f>\"[^\"]*\")\)", fmt_rw)
-    u.verify(J, "get_jws_data", "jws", props=["C04"], fns={"get_jws_data": FnSpec(ret="r", sig="""
-    ensures r matches Ok(s) ==> is_jws(s@, KeyOrMac::Key(*key_pair), *sign_alg, protected@, payload@), //@C04.flattened_jws_signed_over_protected_dot_payload
+    u.verify(J, "get_jws_data", "jws", props=["C04", "C15"], fns={"get_jws_data": FnSpec(ret="r", sig="""
+    ensures r matches Ok(s) ==> is_jws(s@, KeyOrMac::Key(*key_pair), *sign_alg, protected@, payload@), //@C04.flattened_jws_signed_over_protected_dot_payload,C15.flattened_jws_signed_over_protected_dot_payload
 """, rewrites=[fmt,
                ("T-B64", r"b64_encode\(protected\)", "crate::vb64::b64_encode_str(protected)"),
                ("T-B64", r"b64_encode\(payload\)", "crate::vb64::b64_encode_bytes(payload)"),
